@@ -79,6 +79,7 @@ def failing_keys(c):
 
 
 def run(ctx, replay_cases=None):
+    L.refresh_known(ctx)
     ctx.proofs(extra=["Loader/Check.vo"])
     tool, out, _ = vlib.go_build("load", ctx.scratch)
     if tool is None:
